@@ -6,27 +6,45 @@ cvxpy/CLARABEL solve, rounding, exact repair) and accepted only by the verified 
 `c12_ppt_dual` (theorems checkPPTPrimal_sound / checkPPTDual_sound / ppt_lo_le_hi in lean/Toq/Properties/C12.lean).
 toqito's values (primal and dual form, either party transposed) must lie in [lo - tau, hi + tau]; the order relations of the
 property (<= global value, >= explicit product measurement, Bell states = 1/2, local-unitary and party invariance, hierarchy level 1 =
-PPT, level 2 <= level 1, >= product measurement, no mutation of the caller's list) are checked on the same instances."""
+PPT, level 2 <= level 1, >= product measurement, no mutation of the caller's list) are checked on the same instances.
+
+Stream `symext_embedding` (scheme B, feasibility-embedding check; Lean: `separable_meas_feasible`, `symExt2_product`, `symExt2_sum`): the cvxpy
+problem built by `symmetric_extension_hierarchy(states, probs, level, dim)` (levels 1..3) is recorded in-process; exact rational separable
+measurements (local projective measurements in rational bases, one-way LOCC measurements with rank-one POVMs of the second party that depend on
+the first party's outcome, convex mixtures) are written into the captured variables together with the extension
+sum A (x) (w w^H)^(x)level (copies of Y last); every captured constraint and declared variable attribute must hold to 1e-10 and the captured
+objective must equal sum_i p_i tr(rho_i M_i) computed exactly."""
 from __future__ import annotations
 
 import copy
 import warnings
+from fractions import Fraction
 
 import numpy as np
 
 from ..cert import DM, chol_factor, frac_json, repair_povm
+from ..common import InfraError
 from ..pool import Result, run_pool, worker_driver, fold
 from .. import qgen
 
 RULE = ("bipartite ensembles (2..4 states on 2x2 and 2x3 [thorough: also 3x2], real/complex integer amplitudes normalised in floating point, given as 1-D / column "
         "vectors, pure or mixed density matrices, dyadic priors; kinds: random, orthogonal entangled basis, product-vs-entangled, Bell corpus) x primal/dual form x "
         "transposed party; per instance the Lean checker certifies the PPT optimum [lo, hi] for the exact image of the inputs; non-trivial = certified interval narrower "
-        "than 1e-4 and max prior + 1e-2 <= value <= 1 - 1e-2 ; distinct = hash of the instance and call form; hierarchy cases: level 1 and 2 (level 2 on 2x3 only in the thorough tier)")
+        "than 1e-4 and max prior + 1e-2 <= value <= 1 - 1e-2 ; distinct = hash of the instance and call form; hierarchy cases: level 1 and 2 (level 2 on 2x3 only in the thorough tier); "
+        "symext_embedding: ensembles of 2..3 states on 2x2, 2x3, 3x2 (thorough 3x3) x levels 1, 2 (3 on 2x2; thorough also 2x3) x exact rational separable measurements of the "
+        "kinds projective / locc / mixture (4..~20 product outcomes, complex), outcomes attributed by posterior weight or at random; non-trivial = at least two states "
+        "receive an outcome and the ensemble is complex or the dimensions are unequal")
 ASSUMPTIONS = [
     "toqito computes with the float inputs it is given; the instance certified is their exact dyadic image (difference <= 1e-15 relative)",
     "tolerance 2e-5 on CVXOPT-solved values (ppt_distinguishability), 1e-3 on the SCS-solved hierarchy values (cvxpy default solver), as declared in DESIGN.md 4.4",
     "picos.partial_transpose / toqito.channels.partial_transpose are compared with the Lean model's partial transpose on labelled matrices on every run (op c12_ptranspose)",
-    "hierarchy clauses (level 1 = PPT, monotone in the level, >= separable measurement) are checked numerically on toqito's outputs; the Lean side proves the PPT part only",
+    "hierarchy clauses (level 1 = PPT, monotone in the level, >= separable measurement) are checked numerically on toqito's outputs; the Lean side proves the PPT part and that "
+    "separable measurements are feasible at levels 1 and 2 (separable_meas_feasible); the stream symext_embedding evaluates the constraint objects toqito builds at such points",
+    "symext_embedding: cvxpy evaluates the captured constraint/objective expressions faithfully (Constraint.violation(), Expression.value, Variable.project); PSD constraints are "
+    "evaluated by the harness as 'Hermitian and smallest eigenvalue >= -1e-10'; declared variable attributes (hermitian=True) count as constraints; the float image of the rational "
+    "point differs from it by <= 1e-16 per entry, hence the tolerance 1e-10 (observed residuals <= 1e-15); the embedded point is checked exactly (Fractions) against the linear "
+    "constraints of the hierarchy before it is used; mutations that keep every separable measurement feasible (dropped constraint, partial transpose / partial trace on another copy "
+    "of Y, which is equivalent under the symmetry constraint) are invisible to this stream by design",
     "on 2x2 and 2x3 systems positive-partial-transpose operators are separable (Horodecki 1996; cited, not proved), so level 2 of the hierarchy must also be >= the certified PPT optimum",
 ]
 TAU = 2e-5
@@ -470,6 +488,469 @@ def work_hierarchy(task, res: Result):
 
 
 # ------------------------------------------------------------------------------------------------
+# stream symext_embedding — feasibility embedding of exact separable measurements into the problem that
+# symmetric_extension_hierarchy builds (scheme B, last paragraph; Lean: separable_meas_feasible, symExt2_product, symExt2_sum)
+#
+# The cvxpy `Problem` is recorded inside the worker process (cvxpy.Problem.solve replaced by a recorder that aborts the call;
+# restored in `finally`).  An exact (rational) separable measurement with fine outcomes E_c = A_c (x) w_c w_c^H (A_c >= 0 on X,
+# w_c a vector of Y, sum_c E_c = 1), outcome c attributed to state i(c), gives
+#     meas[i]  = sum_{c -> i} A_c (x) w_c w_c^H,
+#     x_var[i] = sum_{c -> i} A_c (x) (w_c w_c^H)^{(x) level} / (w_c^H w_c)^{level - 1}      (copies of Y are the LAST tensor factors: dim_list = [dX, dY, ..., dY]).
+# Every captured constraint and every declared variable attribute must hold (1e-10) and the captured objective must equal
+# sum_i p_i Re tr(rho_i meas[i]) computed exactly from the inputs.
+
+SEMB_TOL = 1e-10
+_PHASES = [(Fraction(1), Fraction(0)), (Fraction(3, 5), Fraction(4, 5)), (Fraction(0), Fraction(1)), (Fraction(-5, 13), Fraction(12, 13)),
+           (Fraction(-1), Fraction(0)), (Fraction(8, 17), Fraction(-15, 17)), (Fraction(0), Fraction(-1)), (Fraction(-4, 5), Fraction(-3, 5))]
+
+
+class CQ:
+    """exact complex rational matrix: object arrays of Fractions (re, im)"""
+
+    def __init__(self, re, im=None):
+        self.re = np.array(re, dtype=object)
+        self.im = np.array(im, dtype=object) if im is not None else self.re * 0
+        if self.re.ndim == 1:
+            self.re, self.im = self.re.reshape(-1, 1), self.im.reshape(-1, 1)
+
+    @staticmethod
+    def eye(n):
+        m = np.zeros((n, n), dtype=object)
+        m[...] = Fraction(0)
+        for i in range(n):
+            m[i, i] = Fraction(1)
+        return CQ(m)
+
+    @staticmethod
+    def zeros(n, m):
+        z = np.zeros((n, m), dtype=object)
+        z[...] = Fraction(0)
+        return CQ(z)
+
+    @property
+    def shape(self):
+        return self.re.shape
+
+    def __matmul__(self, o):
+        return CQ(self.re @ o.re - self.im @ o.im, self.re @ o.im + self.im @ o.re)
+
+    def __add__(self, o):
+        return CQ(self.re + o.re, self.im + o.im)
+
+    def __sub__(self, o):
+        return CQ(self.re - o.re, self.im - o.im)
+
+    def scale(self, q):
+        return CQ(self.re * q, self.im * q)
+
+    def H(self):
+        return CQ(self.re.T, -self.im.T)
+
+    def kron(self, o):
+        return CQ(np.kron(self.re, o.re) - np.kron(self.im, o.im), np.kron(self.re, o.im) + np.kron(self.im, o.re))
+
+    def cols(self, idx):
+        return CQ(self.re[:, idx], self.im[:, idx])
+
+    def rows(self, idx):
+        return CQ(self.re[idx, :], self.im[idx, :])
+
+    def trace(self):
+        return sum((self.re[i, i] for i in range(self.re.shape[0])), Fraction(0))
+
+    def __eq__(self, o):
+        return bool(np.all(self.re == o.re) and np.all(self.im == o.im))
+
+    def to_float(self):
+        return self.re.astype(float) + 1j * self.im.astype(float)
+
+    def json(self):
+        return {"re": [[str(x) for x in row] for row in self.re], "im": [[str(x) for x in row] for row in self.im]}
+
+    @staticmethod
+    def from_json(d):
+        return CQ([[Fraction(x) for x in row] for row in d["re"]], [[Fraction(x) for x in row] for row in d["im"]])
+
+
+def rat_unitary(rng, n, cplx):
+    """exact rational unitary: product of two Householder reflections 1 - 2 v v^H / v^H v with small (complex) integer v and a diagonal of
+    rational points of the unit circle"""
+    U = CQ.eye(n)
+    for _ in range(2):
+        while True:
+            vr = [int(t) for t in rng.integers(-3, 4, size=n)]
+            vi = [int(t) for t in rng.integers(-3, 4, size=n)] if cplx else [0] * n
+            nn = sum(a * a + b * b for a, b in zip(vr, vi))
+            if nn > 0:
+                break
+        v = CQ([Fraction(a) for a in vr], [Fraction(b) for b in vi])
+        U = U @ (CQ.eye(n) - (v @ v.H()).scale(Fraction(2, nn)))
+    D = CQ.zeros(n, n)
+    for i in range(n):
+        c, s = _PHASES[int(rng.integers(len(_PHASES)))] if cplx else (Fraction(int(rng.choice([-1, 1]))), Fraction(0))
+        D.re[i, i], D.im[i, i] = c, s
+    U = U @ D
+    assert U.H() @ U == CQ.eye(n)
+    return U
+
+
+def rand_product_povm(rng, dA, dB, cplx, kind):
+    """exact separable measurement as a list of fine outcomes (A, w): A a PSD operator of the first party (CQ dA x dA), w a vector of the
+    second party (CQ dB x 1), sum A (x) w w^H = 1.
+    'projective': local projective measurements in rational bases U, V;
+    'locc': Alice measures a POVM {A_a} (rank-one elements from a rational isometry, partly merged), Bob then a rank-one POVM that depends on
+            her outcome (dB .. dB+2 elements, from the first dB rows of a rational unitary);
+    'mixture': convex combination (rational weight) of one of each."""
+    if kind == "mixture":
+        lam = Fraction(int(rng.integers(1, 8)), 8)
+        a = rand_product_povm(rng, dA, dB, cplx, "projective")
+        b = rand_product_povm(rng, dA, dB, cplx, "locc")
+        return [(A.scale(lam), w) for A, w in a] + [(A.scale(1 - lam), w) for A, w in b]
+    out = []
+    if kind == "projective":
+        U, V = rat_unitary(rng, dA, cplx), rat_unitary(rng, dB, cplx)
+        for a in range(dA):
+            ua = U.cols([a])
+            for b in range(dB):
+                out.append((ua @ ua.H(), V.cols([b])))
+        return out
+    mA = dA + int(rng.integers(0, 3))
+    WA = rat_unitary(rng, mA, cplx).rows(list(range(dA)))  # dA x mA, W W^H = 1
+    groups = [[c] for c in range(mA)]
+    if mA > dA and rng.integers(2):  # merge two rank-one elements into a rank-two element
+        groups = [[0, 1]] + [[c] for c in range(2, mA)]
+    for gr in groups:
+        A = CQ.zeros(dA, dA)
+        for c in gr:
+            A = A + WA.cols([c]) @ WA.cols([c]).H()
+        mB = dB + int(rng.integers(0, 3))
+        WB = rat_unitary(rng, mB, cplx).rows(list(range(dB)))
+        for c in range(mB):
+            out.append((A, WB.cols([c])))
+    return out
+
+
+def _povm_json(povm):
+    return [[A.json(), w.json()] for A, w in povm]
+
+
+def _povm_from_json(j):
+    return [(CQ.from_json(a), CQ.from_json(w)) for a, w in j]
+
+
+def _pt_np_multi(X, dims, sys):
+    """partial transpose of subsystem sys of an operator on a tensor product with dimensions dims (independent of toqito)"""
+    n = len(dims)
+    T = np.asarray(X).reshape(list(dims) + list(dims))
+    perm = list(range(2 * n))
+    perm[sys], perm[n + sys] = perm[n + sys], perm[sys]
+    D = int(np.prod(dims))
+    return T.transpose(perm).reshape(D, D)
+
+
+def build_symext_point(povm, assign, k, dA, dB, level):
+    """(meas, ext) : lists of k exact matrices; ext[i] on X (x) Y^(x)level"""
+    D = dA * dB
+    meas = [CQ.zeros(D, D) for _ in range(k)]
+    ext = [CQ.zeros(D * dB ** (level - 1), D * dB ** (level - 1)) for _ in range(k)]
+    for (A, w), i in zip(povm, assign):
+        B = w @ w.H()
+        nn = B.trace()
+        meas[i] = meas[i] + A.kron(B)
+        if nn == 0:
+            continue
+        E = A.kron(B)
+        for _ in range(level - 1):
+            E = E.kron(B.scale(1 / nn))
+        ext[i] = ext[i] + E
+    return meas, ext
+
+
+def _exact_self_check(meas, ext, dA, dB, level):
+    """the embedded point satisfies the linear constraints of the hierarchy exactly (harness/model side, no toqito, no cvxpy): sum of the
+    measurement operators = 1, tracing out the last copy of Y of an extension gives the extension of the level below (level 1: the measurement
+    operator), and the extension is invariant under exchanging the last two copies of Y"""
+    D = dA * dB
+    tot = CQ.zeros(D, D)
+    for M in meas:
+        tot = tot + M
+    if not tot == CQ.eye(D):
+        return "sum of the measurement operators is not the identity"
+    for M, X in zip(meas, ext):
+        cur = X
+        for lv in range(level, 1, -1):  # cur acts on X (x) Y^(x)lv
+            m = dA * dB ** (lv - 2)
+            r6, i6 = cur.re.reshape(m, dB, dB, m, dB, dB), cur.im.reshape(m, dB, dB, m, dB, dB)
+            if not (np.all(r6 == r6.transpose(0, 2, 1, 3, 5, 4)) and np.all(i6 == i6.transpose(0, 2, 1, 3, 5, 4))):
+                return f"extension (level {lv}) not invariant under exchanging the last two copies of Y"
+            n = m * dB
+            re, im = cur.re.reshape(n, dB, n, dB), cur.im.reshape(n, dB, n, dB)
+            cur = CQ(sum(re[:, b, :, b] for b in range(dB)), sum(im[:, b, :, b] for b in range(dB)))
+        if not cur == M:
+            return "tracing out the copies of Y does not give the measurement operator"
+    return None
+
+
+def _symext_vars(P, k, D, Dext, rhos_f, probs):
+    """(meas variables, extension variables, how) of the captured problem, index = state number.  The variables carry no names: the
+    measurement operators are the variables of the objective; meas[i] is the one whose objective at "this variable = T, the others 0" is
+    p_i Re tr(rho_i T) for a fixed generic Hermitian T (creation order when that is not unique); x_var[i] is the variable tied to meas[i]
+    by the equality constraint `partial_trace(x_var[i]) == meas[i]` (creation order when no such constraint exists)."""
+    import cvxpy
+    objv = sorted(P.objective.variables(), key=lambda v: v.id)
+    rest = sorted([v for v in P.variables() if all(v is not o for o in objv)], key=lambda v: v.id)
+    if len(objv) != k or len(rest) != k or any(tuple(v.shape) != (D, D) for v in objv) or any(tuple(v.shape) != (Dext, Dext) for v in rest):
+        raise InfraError(f"symmetric_extension_hierarchy: expected {k} measurement variables {D}x{D} in the objective and {k} extension variables {Dext}x{Dext}, "
+                         f"found {[v.shape for v in objv]} / {[v.shape for v in rest]}")
+    how = []
+    r = np.random.default_rng(20240918)
+    T = r.normal(size=(D, D)) + 1j * r.normal(size=(D, D))
+    T = (T + T.conj().T) / 2
+    target = [float(probs[i] * np.real(np.trace(rhos_f[i].conj().T @ T))) for i in range(k)]
+    meas = None
+    if min(abs(a - b) for n, a in enumerate(target) for b in target[n + 1:]) > 1e-7:
+        for v in P.variables():
+            v.save_value(np.zeros(v.shape, dtype=complex))
+        found = {}
+        for v in objv:
+            v.save_value(T)
+            c = float(P.objective.expr.value)
+            v.save_value(np.zeros(v.shape, dtype=complex))
+            hit = [i for i in range(k) if abs(target[i] - c) <= 1e-12]
+            if len(hit) == 1 and hit[0] not in found:
+                found[hit[0]] = v
+        if len(found) == k:
+            meas = [found[i] for i in range(k)]
+            how.append("meas:objective-probing")
+    if meas is None:
+        meas = objv
+        how.append("meas:creation-order")
+    pair = {}
+    for c in P.constraints:
+        if type(c).__name__ != "Equality":
+            continue
+        for u, w in (c.args, c.args[::-1]):
+            if isinstance(w, cvxpy.Variable) and any(w is m for m in meas):
+                vs = u.variables()
+                if len(vs) == 1 and any(vs[0] is x for x in rest):
+                    pair[next(i for i, m in enumerate(meas) if m is w)] = vs[0]
+    if len(pair) == k and len({id(v) for v in pair.values()}) == k:
+        ext = [pair[i] for i in range(k)]
+        how.append("ext:trace-constraint")
+    else:
+        order = {id(v): n for n, v in enumerate(objv)}
+        ext = [rest[order[id(m)]] for m in meas]
+        how.append("ext:creation-order")
+    for v in P.variables():
+        v.value = None
+    return meas, ext, "+".join(how)
+
+
+class _Captured(Exception):
+    pass
+
+
+def _capture(fn):
+    """runs fn() with cvxpy.Problem.solve replaced (this process only, restored afterwards) by a recorder that keeps the Problem object and
+    aborts the call; returns the recorded problems"""
+    import cvxpy
+
+    captured = []
+    orig = cvxpy.Problem.solve
+
+    def fake(self, *a, **kw):
+        captured.append(self)
+        raise _Captured()
+
+    cvxpy.Problem.solve = fake
+    try:
+        try:
+            fn()
+        except _Captured:
+            pass
+    finally:
+        cvxpy.Problem.solve = orig
+    return captured
+
+
+def _psd_residual(M):
+    M = np.asarray(M, dtype=complex)
+    if M.ndim != 2 or M.shape[0] != M.shape[1]:
+        return float("inf")
+    herm = float(np.max(np.abs(M - M.conj().T)))
+    lam = float(np.linalg.eigvalsh((M + M.conj().T) / 2)[0])
+    return max(herm, -lam, 0.0)
+
+
+def _residuals(P):
+    """(max residual, rows (index, kind, residual, text)): every member of P.constraints (PSD constraints read as Hermitian and
+    smallest eigenvalue >= 0) and the declared attributes of every variable (hermitian=True is a constraint of the program)"""
+    rows, worst = [], 0.0
+    for idx, c in enumerate(P.constraints):
+        kind = type(c).__name__
+        if kind == "PSD":
+            r = _psd_residual(c.args[0].value)
+        else:
+            v = c.violation()
+            r = float(np.max(np.abs(v))) if np.size(v) else 0.0
+        if not np.isfinite(r):
+            r = float("inf")
+        worst = max(worst, r)
+        rows.append((idx, kind, r, str(c)[:140]))
+    for n, v in enumerate(P.variables()):
+        val = np.asarray(v.value)
+        r = float(np.max(np.abs(np.asarray(v.project(val)) - val)))
+        if not v.is_complex() and np.iscomplexobj(val):
+            r = max(r, float(np.max(np.abs(val.imag))))
+        worst = max(worst, r)
+        rows.append((-1, f"attributes:{v.name()}", r, f"declared attributes {[a for a, on in v.attributes.items() if on]} of variable {v.name()} {v.shape}"))
+    return worst, rows
+
+
+def _bucket(r):
+    if r == 0:
+        return "0"
+    if not np.isfinite(r):
+        return "inf"
+    return f"1e{int(np.ceil(np.log10(r)))}"
+
+
+def work_symext_embed(task, res: Result):
+    from toqito.state_opt import symmetric_extension_hierarchy
+    warnings.filterwarnings("ignore")
+    inst, level = task["inst"], task["level"]
+    dA, dB, k, probs = inst["dA"], inst["dB"], inst["k"], inst["probs"]
+    D, Dext = dA * dB, dA * dB ** level
+    base = dict(_base(inst), fn="symext_embed", level=level, dim=[dA, dB])
+    states = [np.array(s, copy=True) for s in inst["states"]]
+    dim = None if (dA == dB and inst.get("dim_default", False)) else [dA, dB]
+    try:
+        got = _capture(lambda: symmetric_extension_hierarchy(states, probs=(list(probs) if inst["probs_given"] else None), level=level, dim=dim))
+    except Exception as e:  # noqa: BLE001
+        res.case(base, True, f"symext/level{level}/raise")
+        res.violation(f"symmetric_extension_hierarchy(level={level}, dim={dim}) raises {type(e).__name__}: {str(e)[:160]} while building its problem for a valid ensemble on {dA}x{dB}",
+                      {"function": "symmetric_extension_hierarchy", "args": base, "exception": f"{type(e).__name__}: {str(e)[:300]}", "theorem": "separable_meas_feasible"})
+        return
+    if len(got) != 1:
+        raise InfraError(f"expected one cvxpy problem from symmetric_extension_hierarchy, captured {len(got)}")
+    P = got[0]
+    res.count("symext/problems-captured")
+    res.count("symext/constraints-captured", len(P.constraints))
+    rhos = _dms_exact(inst["states"])
+    rhos_f = [r.to_float() for r in rhos]
+    mvars, xvars, how = _symext_vars(P, k, D, Dext, rhos_f, probs)
+    res.count(f"symext/variables-identified-by/{how}")
+    worst = 0.0
+    for n, mj in enumerate(task["measurements"]):
+        povm = _povm_from_json(mj["povm"])
+        desc = dict(base, kind_meas=mj["kind"], povm=mj["povm"])
+        # attribute every fine outcome to the state with the largest posterior weight (any attribution gives a separable measurement)
+        Ef = [np.kron(A.to_float(), (w @ w.H()).to_float()) for A, w in povm]
+        assign = [int(np.argmax([probs[i] * float(np.real(np.trace(rhos_f[i] @ E))) for i in range(k)])) if mj["assign"] is None else int(mj["assign"][c])
+                  for c, E in enumerate(Ef)]
+        meas, ext = build_symext_point(povm, assign, k, dA, dB, level)
+        why = _exact_self_check(meas, ext, dA, dB, level)
+        if why:
+            raise InfraError(f"harness: the embedded separable point fails its own exact check: {why}")
+        res.case(desc, len(set(assign)) >= 2 and (inst["cplx"] or dA != dB), f"symext/level{level}/{dA}x{dB}/{'c' if inst['cplx'] else 'r'}/{mj['kind']}")
+        for i in range(k):
+            mvars[i].save_value(meas[i].to_float())
+            xvars[i].save_value(ext[i].to_float())
+        w, rows = _residuals(P)
+        bad = [[i, kd, r, t] for i, kd, r, t in rows if not (r <= SEMB_TOL)]
+        obj = float(P.objective.expr.value)
+        exact = Fraction(0)
+        for i in range(k):
+            pi = Fraction(float(probs[i]))
+            rr, ri = rhos[i].re, rhos[i].im
+            s = sum((Fraction(int(rr[a, b]), 1 << rhos[i].e) * meas[i].re[b, a] - Fraction(int(ri[a, b]), 1 << rhos[i].e) * meas[i].im[b, a]
+                     for a in range(D) for b in range(D)), Fraction(0))
+            exact += pi * s
+        if bad:
+            res.violation(
+                f"symmetric_extension_hierarchy(level={level}) on {dA}x{dB}, {k} states: an exact separable measurement ({mj['kind']}, {len(povm)} product outcomes A (x) w w^H) "
+                f"with the extension sum A (x) (w w^H)^(x){level} violates {len(bad)} of the {len(P.constraints)} constraints / variable declarations of the program the code builds, "
+                f"e.g. {bad[0]}: the level-{level} value can drop below the separable value",
+                {"function": "symmetric_extension_hierarchy (constraints)", "args": desc, "violated": bad[:6], "assign": assign, "identified_by": how, "theorem": "separable_meas_feasible"})
+        else:
+            worst = max(worst, w)
+        if not abs(Fraction(obj) - exact) <= Fraction(1, 10 ** 10):
+            res.violation(
+                f"symmetric_extension_hierarchy(level={level}): the captured objective at an exact separable measurement is {obj!r}, its success probability "
+                f"sum_i p_i tr(rho_i M_i) is {float(exact)!r}",
+                {"function": "symmetric_extension_hierarchy (objective)", "args": desc, "impl": obj, "model": str(exact), "assign": assign, "identified_by": how,
+                 "theorem": "separable_meas_feasible (objective = successProb)"})
+        if n == 0:
+            # negative controls: (a) a measurement that does not sum to the identity, (b) for level >= 2 an extension A (x) B (x) C with C != B
+            mvars[0].save_value(meas[0].to_float() + 0.125 * np.eye(D))
+            if not any(not (r <= SEMB_TOL) for _, _, r, _ in _residuals(P)[1]):
+                raise InfraError("negative control: a measurement operator raised by 1/8 passed every captured constraint")
+            mvars[0].save_value(meas[0].to_float())
+            if level >= 2:
+                c0 = next((c for c, (A, w_) in enumerate(povm) if (w_ @ w_.H()).trace() != 0 and A.trace() != 0), None)
+                if c0 is not None:
+                    A, w_ = povm[c0]
+                    B = (w_ @ w_.H())
+                    Cn = np.zeros((dB, dB))
+                    Cn[0, 0] = 1.0
+                    good = np.kron(np.kron(A.to_float(), B.to_float()), B.to_float() / float(B.trace()))
+                    if level == 3:
+                        good = np.kron(good, B.to_float() / float(B.trace()))
+                    wrong = np.kron(np.kron(A.to_float(), B.to_float()), Cn)
+                    if level == 3:
+                        wrong = np.kron(wrong, Cn)
+                    if np.max(np.abs(good - wrong)) > 1e-3:
+                        xvars[assign[c0]].save_value(ext[assign[c0]].to_float() - good + wrong)
+                        if any(not (r <= SEMB_TOL) for _, _, r, _ in _residuals(P)[1]):
+                            res.count("symext/negative-control-nonsymmetric-extension-detected")
+                        else:  # a weaker relaxation is still an upper bound: informational, never an alarm
+                            res.count("symext/nonsymmetric-extension-accepted")
+                            res.note(f"symmetric_extension_hierarchy(level={level}) on {dA}x{dB}: the captured program accepts the non-symmetric extension A (x) B (x) C "
+                                     f"(the symmetric-projection constraint is absent or ineffective): weaker than documented, still an upper bound")
+            res.count("symext/negative-control-detected")
+    res.count(f"symext/max-residual-bucket/{_bucket(worst)}")
+
+
+def symext_tasks(ctx, quick):
+    rng = ctx.rng
+    tasks = []
+    combos = [((2, 2), 1), ((2, 2), 2), ((2, 3), 1), ((2, 3), 2), ((3, 2), 1), ((3, 2), 2), ((2, 2), 3)] + ([] if quick else [((3, 3), 1), ((3, 3), 2), ((2, 3), 3)])
+    n_inst = 4 if quick else 10
+    n_meas = 6 if quick else 12
+    for (dA, dB), level in combos:
+        for j in range(n_inst):
+            forms = ("dm", "col", "dm_mixed", "vec1d")
+            inst = gen_instance(rng, quick, forms=(forms[j % len(forms)],), dims_pool=[(dA, dB)])
+            if inst["form"] == "vec1d":
+                inst["form"] = "col"
+                inst["states"] = [np.asarray(s).reshape(-1, 1) for s in inst["states"]]
+            while inst["k"] > 3:
+                inst = gen_instance(rng, quick, forms=(inst["form"],), dims_pool=[(dA, dB)])
+            inst["dim_default"] = bool(dA == dB and rng.integers(2))
+            ms = []
+            for t in range(n_meas):
+                kind = ["projective", "locc", "mixture"][t % 3]
+                povm = rand_product_povm(rng, dA, dB, True if t % 2 == 0 else inst["cplx"], kind)
+                assign = None if t % 3 != 1 else [int(a) for a in rng.integers(0, inst["k"], size=len(povm))]
+                ms.append({"kind": kind, "povm": _povm_json(povm), "assign": assign})
+            tasks.append({"inst": inst, "level": level, "measurements": ms})
+    return tasks
+
+
+def symext_embedding(ctx, quick):
+    import time as _t
+    t0 = _t.time()
+    run_pool(ctx, work_symext_embed, symext_tasks(ctx, quick))
+    h = ctx.hist
+    bs = [kk.rsplit("/", 1)[1] for kk in h if kk.startswith("symext/max-residual-bucket/")]
+    order = lambda b: -1e9 if b == "0" else (1e9 if b == "inf" else float(b[2:]))  # noqa: E731
+    ctx.extra["symext_embedding"] = {"problems_captured": h.get("symext/problems-captured", 0), "constraints_captured": h.get("symext/constraints-captured", 0),
+                                     "embeddings": sum(v for kk, v in h.items() if kk.startswith("symext/level") and not kk.endswith("/raise")),
+                                     "max_residual_bucket": max(bs, key=order) if bs else None, "tolerance": SEMB_TOL,
+                                     "wall_s": round(_t.time() - t0, 1)}
+
+
+# ------------------------------------------------------------------------------------------------
 # partial transpose: Lean model vs the two library functions the code under test relies on
 
 
@@ -534,6 +1015,8 @@ def run(ctx, model_ok=True):
         levels = [1, 2] if (small or (not quick and i % 4 == 0)) else [1]
         hier.append((inst, levels))
     run_pool(ctx, work_hierarchy, hier)
+    # feasibility embedding of exact separable measurements into the captured problems of the hierarchy
+    symext_embedding(ctx, quick)
     nfail = sum(v for kk, v in ctx.hist.items() if kk.startswith("ppt/primal") and "solver-numerical-failure" in kk)
     nprim = sum(v for kk, v in ctx.hist.items() if kk.startswith("ppt/primal"))
     ndfail = sum(v for kk, v in ctx.hist.items() if kk.startswith("ppt/dual") and "solver-numerical-failure" in kk)
@@ -561,7 +1044,11 @@ def replay(ctx, rec):
             "U": arr(a["U"]) if "U" in a else np.eye(a["dA"], dtype=complex), "V": arr(a["V"]) if "V" in a else np.eye(a["dB"], dtype=complex)}
     res = Result()
     fn = a.get("fn", "ppt_distinguishability")
-    if fn in ("symmetric_extension_hierarchy", "hier_monotone"):
+    if fn == "symext_embed":
+        inst["probs_given"] = True
+        inst["dim_default"] = False
+        work_symext_embed({"inst": inst, "level": a["level"], "measurements": [{"kind": a.get("kind_meas", "replay"), "povm": a["povm"], "assign": rec.get("assign")}]}, res)
+    elif fn in ("symmetric_extension_hierarchy", "hier_monotone"):
         work_hierarchy((inst, [a["level"]] if "level" in a else [1, 2]), res)
     elif fn == "local_unitary_invariance":
         work_invariance((inst, a["primal_dual"], a["subsystems"][0]), res)
